@@ -55,6 +55,12 @@ var atomsD2 = []string{"n", "i1", "ix", "s", "ta", "m", "np", "f1"}
 // atomsD2q: the reduced universe of the quick tier's depth 2.
 var atomsD2q = []string{"i1", "s", "ta", "np"}
 
+// keyAtoms fill key positions ($K): expressions whose value is still wrapped in
+// an interface (an element read, a receive from a chan interface) and holds
+// something unhashable (list, map, function) -- plus one hashable control.
+// Binding such a value to a name would unwrap it, so these are expressions.
+var keyAtoms = []string{"ll [ 0 ]", "lm [ 0 ]", "lf [ 0 ]", "( <- ci )", "a [ 0 ]"}
+
 // typeAtoms fill type positions ($T).
 var typeAtoms = []string{"int64", "string", "float64", "bool", "interface", "nosuch", "a", "mo"}
 var typeAtomsD2 = []string{"int64", "interface", "nosuch"}
@@ -151,6 +157,16 @@ func templates() []template {
 	add("tmap", 'E', "map [ $T ] $T { $E : $E }", false, true)
 	add("tmapsi", 'E', "map [ string ] int64 { $E : $E }", true, true)
 	add("imap", 'E', "map { $E : $E }", true, true)
+	// interface-wrapped unhashable keys in every key position
+	add("keyindex", 'E', "$E [ $K ]", false, true)
+	add("keymap", 'E', "{ $K : $E }", false, true)
+	add("keymap2", 'E', "{ $E : $E , $K : $E }", false, true)
+	add("keyimap", 'E', "map { $K : $E }", false, true)
+	add("keytmap", 'E', "map [ $T ] $T { $K : $E }", false, true)
+	add("keytmapval", 'E', "map [ $T ] $T { $E : $K }", false, true)
+	add("keyin", 'E', "$K in $E", false, false)
+	add("keyinlist", 'E', "$E in [ $K ]", false, false)
+	add("keymember", 'E', "$K . a", false, true)
 	add("inc", 'E', "$L ++", true, false)
 	add("dec", 'E', "$L --", false, false)
 	for _, op := range asgOps {
@@ -177,6 +193,11 @@ func templates() []template {
 	add("letslice", 'S', "$E [ $E : $E ] = $E", false, false)
 	add("letslice1", 'S', "$E [ $E : ] = $E", true, false)
 	add("letslice3", 'S', "$E [ : $E : $E ] = $E", false, false)
+	add("keyletindex", 'S', "$E [ $K ] = $E", false, false)
+	add("keyletindexv", 'S', "$E [ $E ] = $K", false, false)
+	add("keydelete", 'S', "delete ( $E , $K )", false, false)
+	add("keyswitch", 'S', "switch $K { case $E : $S }", false, false)
+	add("keyforin", 'S', "for x in ll { $E [ x ] = $E }", false, false)
 	add("delete1", 'S', "delete ( $E )", true, false)
 	add("delete2", 'S', "delete ( $E , $E )", true, false)
 	add("close", 'S', "close ( $E )", true, false)
@@ -260,7 +281,7 @@ func (p *pattern) render(i int64) string {
 	return strings.Join(toks, " ")
 }
 
-func isHole(t string) bool { return t == "$E" || t == "$L" || t == "$S" || t == "$T" }
+func isHole(t string) bool { return t == "$E" || t == "$L" || t == "$S" || t == "$T" || t == "$K" }
 
 // instantiate builds the depth-1 pattern of a template.
 func instantiate(t template, exprAtoms func(nholes int) []string, tyAtoms []string) pattern {
@@ -278,6 +299,8 @@ func instantiate(t template, exprAtoms func(nholes int) []string, tyAtoms []stri
 			p.holes = append(p.holes, hole{i, exprAtoms(nh)})
 		case "$T":
 			p.holes = append(p.holes, hole{i, tyAtoms})
+		case "$K":
+			p.holes = append(p.holes, hole{i, keyAtoms})
 		}
 	}
 	p.n = p.count()
